@@ -2,7 +2,7 @@
 standard argument signature, built through the public macrospec API."""
 from . import doc as D
 
-SLOT_KINDS = ['*', '[', '{', 'm', 'o', 's', 't+', 'r()', 'd<>', 'v']
+SLOT_KINDS = ['*', '[', '{', 'm', 'o', 's', 't+', 'r()', 'd<>', 'v', 'v||']
 ENV_SLOT_KINDS = ['*', '[', '{', 'm', 'o', 's', 'd<>', 'r()', 't+']
 
 
